@@ -306,12 +306,15 @@ class Peer:
         self.outbox = []            # pending actions
         self.read_limit = None      # bytes per turn (paced reader); None = all
         self.reading = True
+        self.blocked_send = False   # the last send() moved nothing: the proxy is not taking our bytes (yet)
 
     # -- actions
     def _send(self, data):
+        self.blocked_send = False
         try:
             n = _c_send(self.sock, data)
         except BlockingIOError:
+            self.blocked_send = True
             return 0
         except OSError as e:
             self.events.append(('send_err', errno.errorcode.get(e.errno, str(e.errno))))
@@ -511,8 +514,10 @@ class Client(Peer):
     def waiting_on_clock(self):
         if self.connected and self.pc < len(self.script):
             st = self.script[self.pc]
-            return st[0] in ('wait_time', 'sleep', 'wait_turns')
-        return False
+            if st[0] in ('wait_time', 'sleep', 'wait_turns'):
+                return True
+        # blocked in a send(): waiting for the proxy to read or to give up (its timers run on the clock)
+        return bool(self.connected and not self.closed and self.outbox and self.outbox[0][0] == 'send' and self.blocked_send)
 
 
 class OriginConn(Peer):
@@ -994,16 +999,21 @@ class WorldImpl(World):
                                 if p.do_action(p.outbox[0]):
                                     p.outbox.pop(0)
                                     p.pc += 1
-                            self.activity += 1
+                            # a send() the kernel refuses outright (the proxy is not reading) is waiting, not acting:
+                            # the clock must be able to run on (the proxy's idle reaper is what ends such a wait)
+                            if not (act[0] == 'send' and p.blocked_send):
+                                self.activity += 1
                 elif p.outbox and not p.closed:
                     skip = self.choose('A', 2, (p.name, p.outbox[0][0])) if 'A' in self.kinds else 0
                     if skip:
                         self.activity += 1
                         self.progress += 1
                     if not skip:
+                        k0 = p.outbox[0][0]
                         if p.do_action(p.outbox[0]):
                             p.outbox.pop(0)
-                        self.activity += 1
+                        if not (k0 == 'send' and p.blocked_send):
+                            self.activity += 1
                 # (2) drain what is readable
                 if getattr(p, 'connected', True) and p.readable():
                     r = self.choose('R', 3, (p.name,)) if 'R' in self.kinds else 0
@@ -1074,7 +1084,8 @@ class WorldImpl(World):
                 stop = True
             elif self.idle_turns >= self.scn.quiet_turns and \
                     (self.scn.min_time is None or self.now >= 1000.0 + self.scn.min_time):
-                if not any(c.waiting_on_clock() or not c.connected for c in self.clients):
+                if not any(c.waiting_on_clock() or not c.connected for c in self.clients) and \
+                        not any(o.outbox and o.blocked_send and not o.closed for o in self.origin_conns):
                     stop = True
                     self.stuck = not self.scripts_done()
             if stop:
